@@ -1169,7 +1169,7 @@ func constantSelectorGuard(e *recEdge) string {
 			}
 			for _, r := range *w.v.Referrers() {
 				bo, ok := r.(*ssa.BinOp)
-				if !ok || bo.Op != token.EQL {
+				if !ok || (bo.Op != token.EQL && bo.Op != token.NEQ) {
 					continue
 				}
 				other := bo.Y
@@ -1199,8 +1199,9 @@ func constantSelectorGuard(e *recEdge) string {
 					continue
 				}
 				armFound = true
+				_, eq, _ := core.EqCond(bo)
 				for _, blk := range fn.Blocks {
-					if !core.EdgeDominates(iff.Block(), 0, blk) {
+					if !core.EdgeDominates(iff.Block(), eq, blk) {
 						continue
 					}
 					for _, in := range blk.Instrs {
